@@ -170,7 +170,7 @@ func runC05(c *Ctx) {
 		}
 
 		c.MustCut("R05.4", "map parked on `empty` ⊣ {len(m) == 0}", f, sendEmpty, CutSpec{Edges: FactEdge("eq(call:builtin.len(*),const:0)")}, 1)
-		c.MustCut("R05.4", "map handed to the delivery goroutine ⊣ {len(m) != 0}", f, sendCh, CutSpec{Edges: FactEdge("ne(call:builtin.len(*),const:0)")}, 1)
+		// (handing over a map that happens to be empty is harmless: only the parking side is a necessary condition)
 		c.NoReach("R05.4", "no use of the map after sending it, before receiving one again", f, After(f, OrInstr(sendEmpty, sendCh)), 2, usesMap(mdesc), CutSpec{Nodes: isSel})
 		c.MustCut("R05.4", "processEvents ⊣ {a map was acquired}", f, p.CallTo(rtT+".processEvents"), CutSpec{Nodes: isSel}, 2)
 	}
